@@ -84,10 +84,16 @@ def build(tree, cfgname):
 def run_case(tree, spec, extra, cfgname):
     import osyris
 
+    extra, _, form = extra.partition(":")
     out = build(tree, cfgname)
     L = tree.levelmax
     Lstar = max(l for l in range(1, L + 1) if level_accepts(spec, l))
     sel = {"level": level_pred(spec)}
+    if form:
+        # the level predicate given as another kind of callable than a lambda
+        from . import C04
+
+        sel["level"] = C04.as_callable(sel["level"], form)
     rows_all = out.expected_mesh(lmax=Lstar)
     rows = [r for r in rows_all if level_accepts(spec, r["level"])]
     if extra == "density":
@@ -200,7 +206,13 @@ def cases(thorough):
     for spec in (("le", L), ("le", L - 1), ("between", L - 2, L + 1), ("eq", L), ("lt", L)):
         for extra in ("none", "density"):
             yield "scale", t, spec, extra, "1cpu"
-    for label, trees in families(thorough):
+    fams = families(thorough)
+    for form in ("partial", "callable-object", "bound-method", "def"):
+        for label, trees in fams[:3]:
+            for t in trees[:: max(1, len(trees) // 3)][:3]:
+                for spec in level_specs(t.levelmax)[::2]:
+                    yield label, t, spec, "none:" + form, "1cpu"
+    for label, trees in fams:
         big = len(trees) > 300
         if thorough and len(trees) > 2000:
             trees = trees[::4]  # the 4133-tree 3-D family is thinned in the thorough tier (reported in the evidence)
@@ -223,7 +235,7 @@ def work(payload):
     thorough = payload["tier"] == "thorough"
     for idx, (label, t, spec, extra, cfgname) in my_share(cases(thorough), payload):
         problems, info = run_case(t, spec, extra, cfgname)
-        acc.case(nontrivial=info.get("Lstar", 0) < info.get("L", 0) or extra != "none", outcome="ok" if not problems else "violation")
+        acc.case(nontrivial=info.get("Lstar", 0) < info.get("L", 0) or not extra.startswith("none"), outcome="ok" if not problems else "violation")
         if info.get("Lstar", 0) < info.get("L", 0):
             acc.count("capped_below_levelmax")
         for sig, det in problems:
